@@ -7,14 +7,17 @@ only="$1"
 fail=0; n=0
 scratch=$(mktemp -d /tmp/gvc-selftest-XXXXXX)
 trap 'rm -rf "$scratch"' EXIT
+# snapshot of the tree and the verifier taken once, so that /repo and /verif/bin may change while this runs
+rsync -a --exclude .git /repo/ "$scratch/base/"
+cp /verif/bin/gvc "$scratch/gvc"
 run_one() { # patch property
   patch="$1"; prop="$2"
   [ -n "$only" ] && [ "$only" != "$prop" ] && return
   rm -rf "$scratch/repo" "$scratch/verif"; mkdir -p "$scratch/verif"
-  rsync -a --exclude .git /repo/ "$scratch/repo/"
+  rsync -a "$scratch/base/" "$scratch/repo/"
   cp /verif/properties.jsonl /verif/known_findings.jsonl "$scratch/verif/" 2>/dev/null
   if ! (cd "$scratch/repo" && patch -p1 -s < "$patch" >/dev/null 2>&1); then echo "SELFTEST $prop $(basename $(dirname $patch))/$(basename $patch): PATCH-DOES-NOT-APPLY"; fail=1; return; fi
-  /verif/bin/gvc check -repo "$scratch/repo" -verif "$scratch/verif" -property "$prop" -tier quick > "$scratch/out" 2>&1; rc=$?
+  "$scratch/gvc" check -repo "$scratch/repo" -verif "$scratch/verif" -property "$prop" -tier quick > "$scratch/out" 2>&1; rc=$?
   n=$((n+1))
   if [ $rc -eq 1 ] && grep -q '^VIOLATION' "$scratch/out"; then
     echo "SELFTEST $prop $(basename $(dirname $patch))/$(basename $patch): detected ($(grep -c '^VIOLATION' $scratch/out) obligations)"
